@@ -1,8 +1,10 @@
 #!/bin/bash
 # tools/seedtest.sh <Cxx> <patch.diff> [worktree]  — apply a seeded change in a scratch worktree, run the
 # quick check against it, restore the worktree. Prints the check's last lines; exit status = check's.
-P=$1; PATCH=$(readlink -f "$2"); WT=${3:-/tmp/seedwt-$P}
-if [ ! -d "$WT" ]; then git -C /repo worktree add --detach "$WT" HEAD -q; fi
+P=$1; PATCH=$(readlink -f "$2")
+# a private worktree per invocation: concurrent callers (lead, builders) must not share one
+WT=/tmp/seedwt-$P-$$; git -C /repo worktree add --detach "$WT" HEAD -q
+trap 'git -C /repo worktree remove --force "$WT" 2>/dev/null' EXIT
 git -C "$WT" checkout -q -- . && git -C "$WT" clean -fdq
 git -C "$WT" checkout -q --detach $(git -C /repo rev-parse HEAD)
 git -C "$WT" apply "$PATCH" || { echo "patch does not apply"; exit 2; }
